@@ -161,7 +161,7 @@ example : (parseOverlayOpts (renderSuper
 /-- the entry a reader must produce for mount `m`, given its shadow flag -/
 def entryWith (sh : Bool) (m : KMount) : MountType :=
   let e := expectedOf m
-  ⟨e.lower, e.mountpoint, e.upper, e.work, e.fstype, e.options, sh, m.dev, m.root⟩
+  ⟨e.lower, e.mountpoint, e.upper, e.work, e.fstype, e.options, sh, m.dev, m.root, m.id, m.parent⟩
 
 theorem shadowing_contains (f : Bytes) : shadowingFsTypes.contains f = isShadowingType f := by
   simp only [shadowingFsTypes, isShadowingType, List.contains, List.elem]
@@ -229,7 +229,7 @@ example : renderLine exMount =
 example : ∃ st', probeLine {} (renderLine exMount) = .ok st' ∧
     st'.m.list = [⟨b!"/my base/layers/b/build", b!"/my base/layers/x/build",
       b!"/my base/layers/x/overlayfs/upperdir", b!"/my base/layers/x/overlayfs/workdir",
-      b!"overlay", b!"rw,relatime", false, b!"0:47", b!"/"⟩] :=
+      b!"overlay", b!"rw,relatime", false, b!"0:47", b!"/", b!"52", b!"31"⟩] :=
   ⟨_, probeLine_render exMount exMount_wf {}, by decide⟩
 
 /-! ## 4. the whole table -/
